@@ -92,7 +92,41 @@ def to_xml(tree, default_ns):
     return trees.to_xml(tree, default_ns=default_ns, prefixes={"urn:p": "p"})
 
 
+def gen_planted(rng):
+    """the expression has one complete match; beside it sit elements that match a leading part of the path only
+    (dead ends: same names, same required attributes, nothing or an incomplete branch below) - seeded C15-7"""
+    n = rng.choice([2, 2, 3, 4])
+    names = [rng.choice(["a", "b", "c", "entry", "form"]) for _ in range(n)]
+    attrs = [[["", rng.choice(["k", "m"]), rng.choice(["1", "2", "v w"])]] if rng.random() < 0.4 else [] for _ in range(n)]
+    expr = "/".join(nm + "".join('[@%s="%s"]' % (a[1], a[2]) for a in at) for nm, at in zip(names, attrs))
+
+    def branch(depth, upto):
+        if depth >= upto:
+            return []
+        return [["t", "", names[depth], [list(a) for a in attrs[depth]], branch(depth + 1, upto)]]
+
+    def add_dead_ends(node, depth):
+        """node matches step depth-1 (or is the context for depth 0): add partial branches next to the full one"""
+        kids = node[4]
+        for _ in range(rng.choice([0, 1, 1, 2])):
+            partial = branch(depth, rng.randrange(depth + 1, n)) if depth < n - 1 else []
+            if partial:
+                kids.insert(rng.randrange(len(kids) + 1), partial[0])
+        for k in kids:
+            if k[0] == "t" and k[2] == names[depth] and depth + 1 < n and k[4] and rng.random() < 0.5:
+                add_dead_ends(k, depth + 1)
+
+    full = branch(0, n)
+    root = ["t", "", "root", [], full + ([["x", "t"]] if rng.random() < 0.3 else [])]
+    add_dead_ends(root, 0)
+    if rng.random() < 0.3:  # the full match itself is missing: the dead ends make the tree ambiguous or the branch is created
+        root[4] = [k for k in root[4] if k is not full[0]]
+    return {"xml": to_xml(root, None), "ctx": 0, "expr": expr, "ns": None, "p_uri": "urn:p"}
+
+
 def gen_case(rng):
+    if rng.random() < 0.12:
+        return gen_planted(rng)
     dn = rng.choice(["", "", "urn:d"])
     t = gen_tree(rng, ns=dn)
     xml = to_xml(t, dn or None)
@@ -201,7 +235,13 @@ def run_impl(case):
     out = {}
     problems = []
     try:
+        pre = list(ctx.xpath(case["expr"], namespaces=ns))
+    except Exception:  # noqa: BLE001
+        pre = None
+    try:
         r = ctx.fetch_or_create_by_xpath(case["expr"], namespaces=ns)
+        if pre is not None and len(pre) == 1 and r is not pre[0]:
+            problems.append({"why": "the expression selected exactly one node before the call, another node was returned"})
         with altered_default_filters():
             now = [doc.root] + list(doc.root.iterate_descendants())
         n_old = len(nodes)
@@ -235,6 +275,9 @@ def run_impl(case):
         out = {"err": "parse"}
     except Exception as e:  # noqa: BLE001
         out = {"err": type(e).__name__}
+    if out.get("err") == "AmbiguousTreeError" and pre is not None and len(pre) == 1:
+        problems.append({"why": "AmbiguousTreeError although the expression selects exactly one existing node (the call must "
+                                "return it: a second call after unrelated additions returns the same node)"})
     if "err" in out:
         after = id_tree(handle, doc.root)
         if after != before:
